@@ -231,6 +231,9 @@ func (e *Exec) noteAccess(p Ptr, write bool) {
 // raceTracked: the happens-before check covers the library's client state (Tunnel, Router),
 // not harness bookkeeping.
 func (e *Exec) raceTracked(o *Object) bool {
+	if o.LibGlobal {
+		return true
+	}
 	if o.T == nil {
 		return false
 	}
